@@ -215,6 +215,15 @@ def rule_flush_before_end(ctx):
         ctx.ob(R, fi, e, c.dominates(fl, e), f"{unparse(e.ast)[:40]} can run before the transaction's batches were flushed", text="flush-dominates:" + (call_attr(e.ast) or ""))
     for e in end:
         ctx.ob(R, fi, e, unparse(arg_of(e.ast, 1)) == fi.params()[1], "EndTxn result is not the requested one", text="result-arg")
+    # every normal way out of _do_txn_commit has ended the transaction: either the EndTxn handler ran, or (nothing registered) the
+    # transaction was completed locally -- otherwise commit/abort_transaction() waits for ever and the state never returns to READY
+    enders = set(c.calls(attr="complete_transaction")) | {n for n in c.nodes if n.kind == "await" and isinstance(n.ast, ast.Await) and isinstance(n.ast.value, ast.Call)
+                                                          and call_attr(n.ast.value) == "do" and any(c.dominates(e_, n) for e_ in end)}
+    ok = bool(enders) and c.exit not in c.reachable([c.entry], avoid=enders, exc=False)
+    ctx.ob(R, fi, fi.node, ok, "_do_txn_commit can return without having ended the transaction (neither EndTxn sent nor the empty transaction completed)", text="every-exit-ends")
+    em_t = [t for t in c.nodes if t.kind == "test" and "is_empty_transaction()" in unparse(t.ast)]
+    ok = len(em_t) == 1 and all(c.dominated_by_branch(em_t[0], "T", n) for n in c.calls(attr="complete_transaction")) and all(not c.dominated_by_branch(em_t[0], "T", e_) for e_ in end)
+    ctx.ob(R, fi, fi.node, ok, "the local completion is not taken exactly for an empty transaction (EndTxn skipped for a transaction the coordinator knows, or sent for one it does not)", text="shortcut-iff-empty")
     for fn in ctx.repo.funcs.values():
         if fn.module.name != MOD:
             continue
